@@ -492,6 +492,94 @@ theorem engine_view_refinement {defs : List Def} {ii : Indexed} {c : MockConfig}
   have hd : mt.dead = false := by obtain ⟨_, _, _, hd, _⟩ := hv; exact hd
   exact ⟨hd, (viewInv_step H hv o ho).2⟩
 
+/-! ## F. What the `spec` driver states since the oracle review (C04-M2)
+
+The keys `order` (orders that are not filled), `snap<x>` and `r live` used to be model-only. -/
+
+/-- (E6) `reject_outcome_refines_view` — the order snapshot of an order that is NOT filled (spec key
+`order` of the `spec` driver, oracle review C04-M2 / T6). Same setting as `engine_view_refinement`:
+after ANY list of own open requests, when the index-level C08 specification prescribes no fill for
+the next one, the order snapshot that arrives carries the request's own (exchange index, instrument
+index) and the reason `specOutcome` names: `rejected` for a non-market order, otherwise
+`insufficient a` where `a` is the asset INDEX the order would have spent (the instrument's own quote
+index for a buy, base index for a sell) — never another link's or another instrument's asset. -/
+theorem reject_outcome_refines_view {defs : List Def} {ii : Indexed} {c : MockConfig} {m : ExecMap.EMap}
+    {t : Table} (H : ViewHyp defs ii c m t) (chan : Nat) (os : List Open)
+    (hos : ∀ o ∈ os, Own ii c o) (o : Open) (ho : Own ii c o) :
+    let mt := mockRun ii m (spawnMock ⟨chan, c, t⟩) os
+    specObserve ii c (specHistory ii c os) o = none →
+      (mockOpen m mt (nameOf ii o) o).2.order =
+        some (m.exchange.key, o.instrument, specOutcome ii c (specHistory ii c os) o) := by
+  intro mt hnone
+  obtain ⟨ops, hh, htab, hd, hacc⟩ := viewInv_run H os hos (viewInv_spawn c m t chan)
+  obtain ⟨x, hx, hex⟩ := ho
+  have hname : nameOf ii o = x.value.nameExchange := by simp [nameOf, hx]
+  have hacc' : (MockExchange.Spec.accepted (toCfg c t) (MockExchange.opens (toCfg c t) ops)).map
+      (renEv (tauOf m t)) = specHistory ii c os := hacc
+  have := mockOpen_reject_outcome H hh htab hd hx hex o rfl
+  simp only [hacc'] at this
+  rw [hname]
+  exact this hnone
+
+
+/-- (E7) `init_snapshot_refines_view` — the indexed initial account snapshot (spec key `snap<x>`,
+oracle review C04-M2 / T1). Under `ViewHyp`: the first account event of the mocked exchange's manager
+(`initSnapshot`: the configured balances, each exchange NAME translated to an asset index through the
+manager's map; `none` would be an `init` error) exists and is, up to order, `specSnapshot`: for every
+asset INDEX of that exchange the amount configured for it — none missing, none of another exchange,
+none twice. -/
+theorem init_snapshot_refines_view {defs : List Def} {ii : Indexed} {c : MockConfig} {m : ExecMap.EMap}
+    {t : Table} (H : ViewHyp defs ii c m t) (mocks : List MockFuture) (f : InitFuture) (chan : Nat)
+    (hf : f.client = .mock chan) (hm : f.map = m)
+    (hfind : mocks.find? (fun mf => mf.chan == chan) = some ⟨chan, c, t⟩) :
+    ∃ l, initSnapshot mocks f = some l ∧ l.Perm (specSnapshot ii c) :=
+  initSnapshot_refines_view H mocks f chan hf hm hfind
+
+/-- (spec key `r live`, oracle review C04-M2 / T4) The request a manager of a builder-made system
+hands its client — a live client as well as the mock client — for the engine key (exchange index
+`xi`, instrument index `i`), where `xi` is the index of the manager's own exchange `ex`: addressed
+with the exchange ID and the instrument's exchange NAME when instrument `i` belongs to `ex`
+(index → name needs no uniqueness of names); refused (the manager panics, `r mpanic`) when position
+`i` holds no instrument or an instrument of another exchange. Hypothesis: builder output only. -/
+theorem manager_request_addressed {defs : List Def} {ii : Indexed} (h : build defs = some ii)
+    {ex : Nat} {m : ExecMap.EMap} (hm : ExecMap.genMap (toColl ii) ex = .ok m)
+    (xi i cid st : Nat) (e : Keyed Nat Nat) (hxi : ii.exchanges[xi]? = some e) (hev : e.value = ex) :
+    (∀ x, ii.instruments[i]? = some x → x.value.exchange.value = ex →
+      ExecMap.managerClientRequest m ⟨⟨xi, i, cid⟩, st⟩ =
+        some ⟨⟨ex, x.value.nameExchange, cid⟩, st⟩) ∧
+    ((∀ x, ii.instruments[i]? = some x → x.value.exchange.value ≠ ex) →
+      ExecMap.managerClientRequest m ⟨⟨xi, i, cid⟩, st⟩ = none) := by
+  have hW := wfx_toColl h
+  have hid : ExecMap.specExchangeId (toColl ii) ex xi = some ex := by
+    rw [ExecMap.specExchangeId_some]
+    refine ⟨rfl, ⟨e.key, e.value⟩, ?_, hev⟩
+    simp [toColl, hxi]
+  refine ⟨?_, ?_⟩
+  · intro x hx hex
+    rw [ExecMap.managerClientRequest_eq hW hm]
+    have hk : (toColl ii).instruments[i]? = some ⟨x.key, x.value.exchange.value, x.value.nameExchange⟩ := by
+      rw [toColl_instrument, hx]; rfl
+    have hn : ExecMap.specInstrumentName (toColl ii) ex i = some x.value.nameExchange :=
+      (ExecMap.specInstrumentName_some _ ex i _).mpr ⟨_, hk, hex, rfl⟩
+    simp only [ExecMap.specOrderRequest, hid, hn]
+  · intro hne
+    rw [ExecMap.managerClientRequest_eq hW hm]
+    have hn : ExecMap.specInstrumentName (toColl ii) ex i = none := by
+      cases hs : ExecMap.specInstrumentName (toColl ii) ex i with
+      | none => rfl
+      | some n =>
+        exfalso
+        obtain ⟨k, hk, hke, _⟩ := (ExecMap.specInstrumentName_some _ ex i n).mp hs
+        rw [toColl_instrument] at hk
+        cases hx : ii.instruments[i]? with
+        | none => simp [hx] at hk
+        | some x =>
+          simp only [hx, Option.map_some, Option.some.injEq] at hk
+          subst hk
+          exact hne x hx hke
+    simp only [ExecMap.specOrderRequest, hid, hn]
+
+
 /-! ## Non-vacuity
 
 Two exchanges sharing asset internal names (with different exchange names) and an instrument name;
